@@ -48,6 +48,21 @@ CHECKS = {
          'Exhaustive model check over all abstract images of 5 addresses (instruction lengths 1-3, END flags, code sets); the real _find_terminal_instruction is bound to the specification operator on random abstract images; real sna2ctl.main runs on image classes (incl. structured multi-routine programs with untaken calls and indirect jumps, ranges ending mid-instruction) with code maps in five formats built from real simulator traces, then sna2skool and skool2bin on its output.',
          'Termination is bounded liveness (20 s CPU cap per run). Arbitrary (non-trace) address sets are judged for termination/tiling/map-in-code only. An overlap warning caused by a code-map instruction that straddles the requested END is inherent in the input and not counted.',
          'DESIGN.md §4 C14'),
+ 'C10': ('model_checking',
+         'TLA+ SaveResume specification (two copies of the Z80!StepInt machine, SaveLoad at any boundary) model-checked for transparency; TLC judges real trace.py runs: n1+n2 instructions at once vs n1, snapshot, n2',
+         'The save/resume bisimulation is model-checked on a scaled frame with HALT waits, EI, prefix chains, repeating block instructions and IM 2 for every save point; generated programs in generated start snapshots (48K/128K, T anywhere incl. frame end and just below 2^24) are run by the real trace.main for sampled split points x {szx,z80} x {plain,-c} x {C,--python} and the final states compared under Obs (registers, interrupt state, border, frame position, paging, AY, all RAM; MEMPTR for SZX).',
+         'Split points and programs are sampled. Final snapshots are projected with skoolkit\'s own reader (validated by C09). For Z80 + contention the MEMPTR-derived F bits 5,3 are excepted together with MEMPTR.',
+         'DESIGN.md §4 C10'),
+ 'C12': ('model_checking',
+         'TLA+ Loader specification (LD-BYTES stack protocol, Prefill rule) model-checked; TLC executes the tape\'s machine-code loader with the Z80 specification and judges real bin2tap -> tap2sna round trips',
+         'Exhaustive model check of the loader/stack protocol for all placements of ORG/length/STACK in a window; for every generated configuration (sizes 1..41000, STACK below / overlapping each pre-filled byte / inside / above the data, CLEAR, screen, tap/pzx, 128K banks/--7ffd/--loader) TLC checks the main block on the tape against Prefill, runs the loader bytes found on the tape through Z80!Step up to the LD-BYTES entry contract, and judges the snapshot tap2sna produced (PC, SP, memory outside the 14 scratch bytes, banks, 7ffd).',
+         'ROM LD-BYTES is an abstract contract in the model; the end-to-end part runs the real ROM in the real simulator. Loads use the default simulated-LOAD configuration here (C13 varies it).',
+         'DESIGN.md §4 C12'),
+ 'C18': ('model_checking',
+         'TLA+ Wrap specification (greedy placement state machine model-checked for order/width/rows) + TLC judging of the projected output of skool2asm, skool2html and sna2skool for generated unique-token documents',
+         'Generated skool/ctl documents with unique word tokens (all sections, groups of 1..6 instructions, braces in every allowed position, tables/lists, widths 40..200 with systematic end-of-line sweeps) go through the real skool2asm.main, skool2html.main and sna2skool.main; TLC checks words in order exactly once at the right instruction/entry, every instruction once with address and operation, and the width rule with its unbreakable-word exception and warning.',
+         'HTML is tokenised with html.parser (trusted). Wrap points different from the greedy model are drift. Mixed CR/LF terminators are outside the property (drift).',
+         'DESIGN.md §4 C18'),
 }
 
 PENDING = {}
